@@ -247,7 +247,11 @@ class StationaryVelocityFieldTransform(DenseVectorFieldTransform):
     def grid_(self, grid: Grid) -> StationaryVelocityFieldTransform:
         r"""Set sampling grid of transformation domain and codomain."""
         super().grid_(grid)
-        self.exp.align_corners = grid.align_corners()
+        if self.exp.align_corners != grid.align_corners():
+            # ExpFlow module may be shared with the transformation of which this is a shallow copy
+            exp = shallow_copy(self.exp)
+            exp.align_corners = grid.align_corners()
+            self.exp = exp
         return self
 
     def inverse(
